@@ -211,7 +211,7 @@ def case_contexts(func):
     switch can be active when the block executes"""
     # post-dominators on the graph without the rejecting blocks (errno + return): the join after a switch whose cases
     # `return` on error is then the switch's post-dominator, and code after the switch is not "inside" every case
-    rej = {b for b, blk in func.blocks.items() if is_guard_block(blk)}
+    rej = {b for b, blk in func.blocks.items() if is_guard_block(blk, func=func)}
     succ2 = {b: [x for x in func.succ(b) if x not in rej] for b in func.blocks if b not in rej}
     pred2 = {b: [] for b in succ2}
     for b, ss in succ2.items():
@@ -364,12 +364,19 @@ def _top_op(c):
     return None
 
 
-def is_guard_block(b, errfn='imb_set_errno'):
-    """block = [imb_set_errno(x, E), return c] (c non-zero constant or any) -> (err expr, ret value, call ev) else None"""
+def is_guard_block(b, errfn='imb_set_errno', func=None):
+    """block = [imb_set_errno(x, E), return c] (c non-zero constant or any) -> (err expr, ret value, call ev) else None.
+    With func given, `imb_set_errno(x, E); goto reject;` counts too when the label's block returns (a shared reject tail)"""
     evs = [e for e in b['ev']]
     calls = [e for e in evs if e['k'] == 'call']
     rets = [e for e in evs if e['k'] == 'return']
     others = [e for e in evs if e['k'] not in ('call', 'return')]
+    if func is not None and len(calls) == 1 and not rets and not others and (b.get('term') or {}).get('kind') == 'GotoStmt' and \
+            len(b['succ']) == 1 and b['succ'][0] is not None:
+        tail = func.blocks[b['succ'][0]]
+        trets = [e for e in tail['ev'] if e['k'] == 'return']
+        if len(trets) == 1 and not any(e['k'] == 'call' and e['e'].get('fn') == errfn for e in tail['ev']):
+            rets = trets
     if len(calls) != 1 or len(rets) != 1 or others:
         return None
     c = calls[0]['e']
@@ -461,7 +468,7 @@ def _catalogue(func, depth=0):
     dom = func.dominators()
     cctx = case_contexts(func)
     for bid, b in func.blocks.items():
-        g = is_guard_block(b)
+        g = is_guard_block(b, func=func)
         if not g:
             continue
         err, ret, cev = g
